@@ -4,6 +4,7 @@
    Composition of C09 (Model/Resolvers.v) and C07 (Model/Imports.v, corresponded). *)
 From Coq Require Import List String ZArith NArith Bool.
 Import ListNotations.
+From DV Require Import Model.Decision Gen.DecisionSrc Proofs.RestoreIdentProofs.
 From DV Require Import Model.Decision Gen.GoastImportsSrc Proofs.GoastStepProofs.
 From DV Require Import Model.Tree Model.Resolvers Model.Imports Proofs.ResolverProofs Proofs.ImportsProofs Proofs.ImportsExact
   Model.Decision Model.DecisionInterp Gen.DecisionSrc Proofs.DecisionProofs.
@@ -114,6 +115,26 @@ Proof. exact goast_scan_by_steps. Qed.
 Theorem C10_goast_imports_source_is_within_the_vocabulary : step_vocabulary_ok && goast_imports_frame_ok = true.
 Proof. vm_compute. reflexivity. Qed.
 
+
+(* restoreIdent decides which identifiers come back as package.Name and under which name.  Its decision part
+   is translated on every run (the conditional assignments to `name` fork the rest of the function; the
+   statements that build the selector are pinned against the model's selector_acts and form one outcome) and
+   proved, for every input, to compute: panic without a resolver or at an illegal position; a bare identifier
+   when there is no path, the path is the restorer's own, or the chosen name is empty (dot-import); otherwise
+   a selector on exactly the name updateImports chose for the path -- which is the choice the restorer
+   model makes at an identifier (node_acts) *)
+Theorem C10_restoreIdent_source_computes_the_model :
+  (forall resolver_nil path_empty avoid_hit same_path pname,
+    ident_outcome pname (run (ident_val resolver_nil path_empty avoid_hit same_path pname) restoreident_src)
+    = Some (restore_ident_mode resolver_nil path_empty avoid_hit same_path pname)) /\
+  (forall managed pu_zero same_path pname,
+    erase (restore_ident_mode (negb managed) pu_zero false same_path pname)
+    = node_acts_mode managed pu_zero (pk_of same_path pname)).
+Proof. split; [exact restoreident_source_is_model | exact restore_ident_mode_is_the_models_choice]. Qed.
+
+Theorem C10_restoreIdent_source_is_within_the_vocabulary : restoreident_vocabulary_ok = true.
+Proof. vm_compute. reflexivity. Qed.
+
 Print Assumptions C10_reference_travels_as_import_path.
 Print Assumptions C10_resolver_sources_compute_the_models.
 Print Assumptions C10_moved_reference_is_bound_in_the_target.
@@ -123,3 +144,5 @@ Print Assumptions C10_qualifiers_are_unambiguous.
 Print Assumptions C10_goast_import_case_source_computes_the_model.
 Print Assumptions C10_goast_scan_iterates_the_step.
 Print Assumptions C10_goast_imports_source_is_within_the_vocabulary.
+Print Assumptions C10_restoreIdent_source_computes_the_model.
+Print Assumptions C10_restoreIdent_source_is_within_the_vocabulary.
